@@ -683,6 +683,23 @@ func (c *SpecCtx) evalSliceExpr(x *ast.SliceExpr) *SV {
 	case *types.Array:
 		sl = c.ex.arraySlice(base.V, tt)
 		rt = types.NewSlice(tt.Elem())
+	case *types.Basic:
+		if tt.Info()&types.IsString == 0 {
+			c.fail("cannot slice %s", bt)
+		}
+		// s[lo:hi] of a string: the same uninterpreted substr term the executor builds for the Go expression
+		ex := c.ex
+		str := c.term(base, ex.strSort())
+		lo := ex.intConst(0)
+		hi := ex.strLen(str)
+		if x.Low != nil {
+			lo = c.term(c.eval(x.Low), ex.env.IntS())
+		}
+		if x.High != nil {
+			hi = c.term(c.eval(x.High), ex.env.IntS())
+		}
+		sub := ex.env.d.Func("substr", ex.strSort(), ex.strSort(), ex.env.IntS(), ex.env.IntS())
+		return &SV{V: scalar(ex.env.d.Apply(sub.Name, str, lo, hi)), T: base.T}
 	default:
 		c.fail("cannot slice %s", bt)
 	}
@@ -1067,6 +1084,10 @@ func (c *SpecCtx) evalCall(x *ast.CallExpr) *SV {
 		t := c.resolveType(x.Args[0])
 		a := c.eval(x.Args[1])
 		return &SV{V: scalar(ex.valTerm(a.V)), T: t}
+	case "concat":
+		// concat(a, b): concatenation of two strings
+		a, b := c.eval(x.Args[0]), c.eval(x.Args[1])
+		return &SV{V: scalar(ex.strCat(c.term(a, ex.strSort()), c.term(b, ex.strSort()))), T: types.Typ[types.String]}
 	case "strdata":
 		a := c.eval(x.Args[0])
 		return &SV{V: scalar(ex.strData(a.V.T)), T: types.Typ[types.UnsafePointer]}
